@@ -1,4 +1,5 @@
 import TextxVerif.Proofs.RecSim
+import TextxVerif.Wire  -- only so that building this module also builds what Drivers/Rec.lean needs
 import TextxVerif.Gen.Grammars
 /-!
 # C24 — the self-hosted textX grammar agrees with the grammar compiler
@@ -96,5 +97,51 @@ theorem C24_agree_partial (L : Lex) (hL : LexOk hyps L) :
     (accepts lang L ↔ accepts (unsep tx unproved) L) ∧ (rejects lang L ↔ rejects (unsep tx unproved) L) :=
   C24_accept_iff langSide txoSide hyps depth rel relInv L C24_check.1 C24_check.2.1 C24_check.2.2.1
     C24_check.2.2.2 hL
+
+/-! ### why the RREL separator repetitions are left to correspondence: the two formulations differ -/
+
+/-- `x+[s] s` as a parser model: 0 = Sequence[1, 3], 1 = OneOrMore(2, sep=3), 2 = 'x', 3 = 's' -/
+def sepGraph : Graph :=
+  { size := 4, top := 0, comments := none, skipws := false, ws := [],
+    node := fun i => match i with
+      | 0 => some { kind := .seq, kids := [1, 3] }
+      | 1 => some { kind := .plus, kids := [2], sep := some 3 }
+      | 2 => some { kind := .str, tok := 0 }
+      | 3 => some { kind := .str, tok := 1 }
+      | _ => none }
+
+/-- the input `xs` -/
+def sepLex : Lex :=
+  { input := #['x', 's'], tok := fun t p => if (t = 0 ∧ p = 0) ∨ (t = 1 ∧ p = 1) then some 1 else none }
+
+/-- `x+[s] s` accepts `xs` (the repetition gives the separator back), `(x s)* x s` does not: `unsep` is
+not semantics preserving in general, so the agreement of `tx` with `unsep tx unproved` needs the
+context of the grammar and is not claimed by `C24_agree_partial`. -/
+theorem C24_sep_forms_differ : accepts sepGraph sepLex ∧ rejects (unsepNode sepGraph 1) sepLex ∧
+    ¬ accepts (unsepNode sepGraph 1) sepLex := by
+  have hr : rejects (unsepNode sepGraph 1) sepLex := ⟨10, by decide⟩
+  exact ⟨⟨10, .T, 2, by decide⟩, hr, fun ha => C24_not_both _ _ ⟨ha, hr⟩⟩
+
+/-! ### non-vacuity -/
+
+theorem firstTok_none (p : Nat) (ts : List Nat) : firstTok ⟨#[], fun _ _ => none⟩ p ts = none := by
+  induction ts with
+  | nil => rfl
+  | cons t ts ih => simp only [firstTok]; exact ih
+
+/-- the lexer hypotheses are satisfiable, whatever the generated `hyps` are -/
+example (H : Hyps) : LexOk H ⟨#[], fun _ _ => none⟩ :=
+  ⟨fun _ _ _ _ h => by simp at h, fun ta _ p => (firstTok_none p ta.2).symm⟩
+
+/-- the hypotheses of `C24_bisim_sound` are met by the generated graphs of the textX language
+(141 and 185 nodes, two different formulations of the same language): `C24_check` -/
+example : ∃ s₁ s₂ H d R, wfSh s₁.g H s₁.sh = true ∧ wfSh s₂.g H s₂.sh = true ∧ check s₁ s₂ H d R = true ∧
+    inR s₁ s₂ d R s₁.g.top s₂.g.top = true :=
+  ⟨langSide, txoSide, hyps, depth, rel, C24_check.1, C24_check.2.1, C24_check.2.2.1,
+    (check_base C24_check.2.2.1).2.1⟩
+
+/-- the checker is not trivially true: it refuses to relate `x+[s] s` to its `unsep` form -/
+example : check ⟨sepGraph, fun _ => [.T]⟩ ⟨unsepNode sepGraph 1, fun _ => [.N, .E, .T]⟩ ⟨[], []⟩ 4
+    (fun a => [a]) = false := by decide
 
 end Rec
